@@ -704,14 +704,13 @@ def _dot_csr_csr_type(dt1, dt2):
                 next_[temp] = -1
                 sums[temp] = 0
 
+            # the linked list yields the columns of a row in reverse order of
+            # first touch; GCXS needs them in increasing order
+            order = np.argsort(indices[indptr[i] : nnz])
+            indices[indptr[i] : nnz] = indices[indptr[i] : nnz][order]
+            data[indptr[i] : nnz] = data[indptr[i] : nnz][order]
             indptr[i + 1] = nnz
 
-        if len(indices) == (n_col * n_row):
-            for i in range(len(indices) // n_col):
-                j = n_col * i
-                k = n_col * (1 + i)
-                data[j:k] = data[j:k][::-1]
-                indices[j:k] = indices[j:k][::-1]
         return data, indices, indptr
 
     return _dot_csr_csr
